@@ -114,6 +114,9 @@ fn erasure_checks(h: &UntypedHandle, stored: Ty, id: &str) {
     detsim::count("reach.type_erasure_probe");
 }
 
+/// A type nothing is ever stored as.
+pub struct WrongView(#[allow(dead_code)] u8);
+
 /// A seed type without a destructor, loadable as a Compound.
 pub struct PlainSeed(pub u64);
 impl assets_manager::Compound for PlainSeed {
@@ -304,7 +307,19 @@ fn scenario(w: Work) {
                     s.spawn("guard-holder", move || {
                         with_ty!(ty, T, {
                             if let Some(h) = cache.get_cached::<T>(&id) {
-                                let g = h.read();
+                                // the guard comes straight from read(), or is the one a wrong-type downcast / a failed
+                                // try_map hands back (it must still pin the value)
+                                let g = match i % 3 {
+                                    0 => h.read(),
+                                    1 => match h.as_untyped().read().downcast::<WrongView>() {
+                                        Err(g) => g.downcast::<T>().ok().expect("downcast to the stored type after a failed one"),
+                                        Ok(_) => detsim::fail("C13/wrong-type-view", format!("{ty:?} {id}: an untyped guard was downcast to an unrelated type")),
+                                    },
+                                    _ => match assets_manager::AssetReadGuard::try_map(h.read(), |_| None::<&u8>) {
+                                        Err(g) => g,
+                                        Ok(_) => unreachable!(),
+                                    },
+                                };
                                 let tids = g.tids();
                                 tids.iter().for_each(|t| ledger::pin(*t));
                                 for _ in 0..3 {
